@@ -134,12 +134,18 @@ func (m *movMem) Free() {
 	m.buf = nil
 }
 
-// lstRec is a recording listener (one instance for all functions): it only counts.
+// lstRec is a recording listener (one instance for all functions): it only counts. The factory is in the
+// context both when the guest modules are compiled and when the "env" host module is instantiated, so host
+// functions are listened too; with hostOnly it returns a listener for host functions only.
 type lstRec struct {
+	hostOnly                   bool
 	made, before, after, abort int
 }
 
-func (l *lstRec) NewFunctionListener(api.FunctionDefinition) experimental.FunctionListener {
+func (l *lstRec) NewFunctionListener(def api.FunctionDefinition) experimental.FunctionListener {
+	if l.hostOnly && def.GoFunction() == nil {
+		return nil
+	}
 	l.made++
 	return l
 }
@@ -176,12 +182,12 @@ type rtRun struct {
 func (r *rtRun) add(format string, a ...any) { r.tr = append(r.tr, fmt.Sprintf(format, a...)) }
 
 // newRT creates the runtime and its "env" host module.
-func newRT(s settings, cache wazero.CompilationCache) *rtRun {
+func newRT(p *program, s settings, cache wazero.CompilationCache) *rtRun {
 	r := &rtRun{s: s}
 	ctx, cancel := context.WithCancel(context.Background()) // cancellable but never cancelled while the guest runs
 	r.cancel = cancel
 	if s.Listener {
-		r.lst = &lstRec{}
+		r.lst = &lstRec{hostOnly: p.ListenHostOnly}
 		ctx = experimental.WithFunctionListenerFactory(ctx, r.lst)
 	}
 	if s.Alloc {
@@ -317,7 +323,68 @@ func (r *rtRun) buildEnv() {
 			r.add(" host ext(%#x)", st[0])
 		})
 	}
-	if _, err := b.Instantiate(context.Background()); err != nil {
+	// module-dependent host functions in every definition style: what they do depends on WHICH module they are handed
+	seen := func(mod api.Module) string {
+		if mod == nil {
+			return "<nil>"
+		}
+		return mod.Name()
+	}
+	def("mrd", []api.ValueType{tI32}, []api.ValueType{tI32}, func(_ context.Context, mod api.Module, st []uint64) { // api.GoModuleFunc
+		addr := uint32(st[0])
+		v := uint32(0xfffffffd)
+		if mem := memOf(mod); mem != nil {
+			if c, ok := mem.ReadByte(addr); ok {
+				v = uint32(c)
+			}
+		}
+		r.add(" host mrd(%d) in %s -> %#x", addr, seen(mod), v)
+		st[0] = uint64(v)
+	})
+	b = b.NewFunctionBuilder().WithFunc(func(_ context.Context, mod api.Module, addr, val uint32) { // reflection, (ctx, api.Module, ...)
+		ok := false
+		if mem := memOf(mod); mem != nil {
+			ok = mem.WriteByte(addr, byte(val))
+		}
+		r.add(" host mwr(%d,%#x) in %s -> %v", addr, val, seen(mod), ok)
+	}).Export("mwr")
+	b = b.NewFunctionBuilder().WithFunc(func(_ context.Context, mod api.Module) uint32 { // reflection
+		h := uint32(fnv(seen(mod)))
+		r.add(" host mname() in %s", seen(mod))
+		return h
+	}).Export("mname")
+	def("mglob", nil, []api.ValueType{tI64}, func(_ context.Context, mod api.Module, st []uint64) {
+		v := uint64(0xdead)
+		if g := mod.ExportedGlobal("tag"); g != nil {
+			v = g.Get()
+		}
+		r.add(" host mglob() in %s -> %#x", seen(mod), v)
+		st[0] = v
+	})
+	b = b.NewFunctionBuilder().WithGoFunction(api.GoFunc(func(_ context.Context, st []uint64) { // api.GoFunc: no module at all
+		r.add(" host note(%d)", uint32(st[0]))
+		st[0] = uint64(uint32(st[0]) ^ 0x5a)
+	}), []api.ValueType{tI32}, []api.ValueType{tI32}).Export("note")
+	def("reentermain", []api.ValueType{tI32}, []api.ValueType{tI32}, func(ctx context.Context, mod api.Module, st []uint64) {
+		// re-enters an export of the module named "main" whoever the caller is
+		x := uint32(st[0])
+		main := r.rt.Module("main")
+		if main == nil || main.ExportedFunction("cb") == nil {
+			r.add(" host reentermain(%d) in %s: no main.cb", x, seen(mod))
+			st[0] = 0
+			return
+		}
+		r.add(" host reentermain(%d) in %s >", x, seen(mod))
+		res, err := main.ExportedFunction("cb").Call(ctx, uint64(x))
+		if err != nil {
+			r.add(" host reentermain(%d) < %s", x, errKind(err))
+			panic(err)
+		}
+		r.add(" host reentermain(%d) in %s < %d", x, seen(mod), uint32(res[0]))
+		st[0] = uint64(uint32(res[0]) + 1)
+	})
+	// the listener factory (if any) is in r.ctx: host functions get listeners as well
+	if _, err := b.Instantiate(r.ctx); err != nil {
 		r.envErr = err.Error()
 	}
 }
